@@ -77,6 +77,11 @@ func genQ(r *vlib.R) aQ {
 		q.qtype = int(dns.TypeTXT)
 	case 2:
 		q.qtype = int(dns.TypeAAAA)
+	case 3:
+		// the DNSSEC record types themselves and their neighbours: only RRSIG is
+		// an exception to the DO=0 filter
+		q.qtype = int(vlib.Pick(r, []uint16{dns.TypeNSEC, dns.TypeNSEC3, dns.TypeNSEC, dns.TypeNSEC3, dns.TypeDNSKEY, dns.TypeDS,
+			dns.TypeNSEC3PARAM, dns.TypeNS, dns.TypeSOA, dns.TypeMX, dns.TypeANY, dns.TypeSIG, dns.TypeCDS, 65280}))
 	default:
 		q.qtype = int(dns.TypeA)
 	}
@@ -674,6 +679,35 @@ func gen(r *vlib.R, n int, tier string, emit func(string)) {
 				emit(rawOp(vlib.Pick(r, []string{"http", "msgdoh", "msgdoq", "rawudp", "rawudp", "rawtcp", "rawtcp", "inline"}), genMalformed(r, nil)))
 				continue
 			}
+			if r.Chance(1, 14) {
+				// a resolution failure on record (RFC 9520), then the same question
+				// again from clients with every mix of AD / CD / DO, on the byte
+				// route and as messages
+				fq := genQ(r)
+				fq.opcode, fq.rd, fq.mask, fq.cd = 0, true, 0, r.Bool()
+				fq.qtype = vlib.Pick(r, []int{int(dns.TypeA), int(dns.TypeAAAA), int(dns.TypeTXT)})
+				if fq.opt.present {
+					fq.opt.ver = 0
+					fq.opt.opts = nil
+				}
+				fu := aR{mode: 'e', rcode: dns.RcodeServerFailure, ra: true}
+				emit(fmt.Sprintf("srv q rawudp %s %s", fq, fu))
+				for h := 0; h < 4; h++ {
+					hq := fq
+					hq.ad = r.Bool()
+					switch r.Intn(3) {
+					case 0:
+						hq.opt = aOpt{}
+					case 1:
+						hq.opt = aOpt{present: true, udp: vlib.Pick(r, []int{512, 1232, 4096}), do: r.Bool()}
+					default:
+						hq.opt = aOpt{present: true, udp: 1232, do: false, opts: []aOption{{optCookie, r.Bytes(8)}}}
+					}
+					emit(fmt.Sprintf("srv q %s %s %s", vlib.Pick(r, []string{"rawudp", "rawtcp", "inline", "sockudp", "socktcp", "msgdoh", "sockdoq"}), hq, fu))
+				}
+				k += 4
+				continue
+			}
 			if r.Chance(1, 12) {
 				// alias chase out of the cache: a target and a bare alias to it
 				// are warmed in with independent AD bits, then the alias is asked
@@ -725,7 +759,7 @@ func gen(r *vlib.R, n int, tier string, emit func(string)) {
 				// denial records with and without signatures, warmed into the
 				// cache and then asked again by DO=0 clients on the byte path
 				q := genQ(r)
-				q.opcode, q.qtype = 0, vlib.Pick(r, []int{int(dns.TypeA), int(dns.TypeAAAA), int(dns.TypeTXT)})
+				q.opcode, q.qtype = 0, vlib.Pick(r, []int{int(dns.TypeA), int(dns.TypeAAAA), int(dns.TypeTXT), int(dns.TypeNSEC), int(dns.TypeNSEC3), int(dns.TypeDNSKEY)})
 				q.cd = false
 				q.opt = aOpt{present: true, udp: 1232, do: false}
 				forceMix = vlib.Pick(r, []int{4, 4, 5, 6, 7, 8, 2})
